@@ -1,5 +1,241 @@
+/-
+C15 — reachability answers equal true graph reachability regardless of query history.
+ONLY property statements and non-vacuity examples live here; lemmas are in Proofs/C15.lean.
+
+Layering (DESIGN §4 C15):
+  1. `sccCert_sound`                 verified certificate checker for SCC decompositions (all graphs)
+  2. `tarjan_*`                      the transcribed iterative Tarjan (full correctness = stated goal)
+  3. `bidir_reachable_correct`       `ComponentReachable` (all digraphs, all directions)
+  4. `reach_cache_exact`             every cached entry is the true reach set, preserved by every query
+        … `_refuted` for the DFS as the code has it (DESIGN §5 F5), `_fixed` for the repaired DFS
+  5. `answers_history_independent`   corollary; `_refuted` / `_fixed` likewise
+  `C15_full` is the statement of properties.jsonl for the live code; `c15_full_refuted` its refutation.
+-/
 import Dawgs.Proofs.C15
 namespace Dawgs.C15.Props
-open Dawgs.C15
+open Dawgs.C15 Dawgs.C16
+
+/-! ### 0. the spec itself: plain BFS is the reachability relation -/
+
+/-- The monitor's BFS reach set is exactly the reflexive-transitive closure of adjacency, for every digraph,
+direction and start node (no well-formedness assumption, the fuel `|V|+2` always suffices). -/
+theorem spec_bfs_is_reachability (g : Digraph) (d : Dir) (u x : Nat) :
+    x ∈ g.reachSet d u ↔ Reach (g.adj d) u x :=
+  g.mem_reachSet d u x
+
+/-! ### 1. SCC certificate checker -/
+
+/-- If the checker accepts `comps` for `g` then `comps` is the SCC decomposition of `g`: a partition of the
+nodes, two nodes share a component exactly when each reaches the other, and the condensation is acyclic. -/
+theorem sccCert_sound (g : Digraph) (comps : List (List Nat)) (h : checkSCC g comps = true) : IsSCC g comps :=
+  checkSCC_sound h
+
+/-! ### 2. Tarjan -/
+
+/-- STATED GOAL (stretch, not proved in this round): the transcribed iterative Tarjan returns, for every
+well-formed digraph, a decomposition the certificate checker accepts (hence, by `sccCert_sound`, the SCC
+decomposition in reverse topological order).  Every check run evaluates `checkSCC` on the implementation's
+(= model's, by the tie) output of every case, so the statement is tested per case and its consequence
+`IsSCC` is then a theorem for that case. -/
+def tarjan_correct_full : Prop :=
+  ∀ g : Digraph, g.WF → ∃ comps lk, tarjan g = some (comps, lk) ∧ checkSCC g comps = true
+
+/-- What holds of Tarjan's output for every graph today: whenever the checker accepts it, it IS the SCC
+decomposition (soundness is unconditional; completeness of the checker on Tarjan's output is
+`tarjan_correct_full`). -/
+theorem tarjan_correct_partial (g : Digraph) (comps : List (List Nat)) (lk : List (Nat × Nat))
+    (_ht : tarjan g = some (comps, lk)) (hc : checkSCC g comps = true) : IsSCC g comps :=
+  checkSCC_sound hc
+
+/-! ### 3. ComponentReachable -/
+
+/-- The bidirectional BFS (smaller-frontier rule, early break when the inbound frontier is exhausted) returns,
+within its fuel, `true` exactly when the end component is reachable from the start component in the given
+direction — for every well-formed component digraph (acyclic or not), every pair and all three directions. -/
+theorem bidir_reachable_correct (cg : CompGraph) (hw : cg.dg.WF) (s t : Nat) (d : Dir) :
+    ∃ b, cg.componentReachable s t d = some b ∧ (b = true ↔ Reach (cg.dg.adj d) s t) := by
+  unfold CompGraph.componentReachable bidirFuel
+  exact bidir_correct (cg.dg.adj d) (cg.dg.adj d.reverse) (Dir.reverse_conv hw d) cg.dg.nodes
+    (cg.dg.adj_sub_nodes d) (cg.dg.adj_sub_nodes d.reverse) s t _ (Nat.le_refl _)
+
+/-! ### 4. the reach cache -/
+
+/-- FULL STRENGTH: for ANY cache that satisfies the C16 contract (a hit returns the latest put of that key —
+whatever its capacity and eviction choices), any digraph, any fuel: if every cached binding is the exact reach
+set of its key, then `componentReachDFS` answers with the exact reach set of the queried component and every
+binding cached afterwards is exact again.  `fixed = false` is the DFS as /repo has it. -/
+def reach_cache_exact (fixed : Bool) : Prop :=
+  ∀ (σ : Type) (C : CacheI σ) (Rep : σ → Ideal → Prop), Lawful C Rep →
+  ∀ (adjf : Nat → List Nat) (fuel : Nat) (cache : σ) (m : Ideal) (c : Nat),
+    Rep cache m → CacheExact adjf m →
+    ∀ cache' r, reachDFS C adjf fixed fuel cache c = some (cache', r) →
+      ExactBits adjf c r ∧ ∃ m', Rep cache' m' ∧ CacheExact adjf m'
+
+/-- the repaired DFS (cache only cursors whose exploration was not cut by the shared visited set; the root is
+always complete) satisfies the full-strength statement -/
+theorem reach_cache_exact_fixed : reach_cache_exact true :=
+  fun _ C Rep hL adjf fuel cache m c hrep hex cache' r h =>
+    reachDFS_fixed_exact C Rep adjf hL fuel cache m hrep hex c cache' r h
+
+/-- F5 witness at component level: the diamond `3→{1,2}, 2→1, 1→0` (component ids in Tarjan emission order). -/
+def diamond : Nat → List Nat
+  | 3 => [1, 2]
+  | 2 => [1]
+  | 1 => [0]
+  | _ => []
+
+def diamondRun : Option ((Sieve × Sieve) × Nat) :=
+  reachDFS (dirCache .outb) diamond false 50 (Sieve.new 8, Sieve.new 8) 3
+
+/-- **the current code violates the statement**: one query for component 3 on an empty cache of capacity 8
+leaves the binding `2 ↦ {1,2}` in the outbound cache although `2` reaches `0` (cursor 2 skipped the already
+visited neighbour 1 and was cached without 1's descendants). -/
+theorem reach_cache_exact_refuted : ¬ reach_cache_exact false := by
+  intro h
+  have hrun : (diamondRun.map (fun p => valOf p.1.2.queue 2)) = some (some 6) := by decide
+  cases hd : diamondRun with
+  | none => rw [hd] at hrun; cases hrun
+  | some p =>
+    obtain ⟨cache', r⟩ := p
+    rw [hd] at hrun
+    have hv : valOf cache'.2.queue 2 = some 6 := by simpa using hrun
+    have := h (Sieve × Sieve) (dirCache .outb) (dirRep .outb) (dirCache_lawful .outb) diamond 50
+      (Sieve.new 8, Sieve.new 8) [] 3 ⟨Sieve.inv_new 8, Sieve.sub_new 8⟩ (cacheExact_nil _) cache' r hd
+    obtain ⟨_, m', hrep, hex⟩ := this
+    have hget : m'.get 2 = some 6 := hrep.2 2 6 hv
+    have hreach : Reach diamond 2 0 := Reach.tail (Reach.single (by decide : 1 ∈ diamond 2)) (by decide : 0 ∈ diamond 1)
+    have := (hex 2 6 hget 0).2 hreach
+    exact absurd this (by decide)
+
+/-- Termination of `componentReachDFS` (either variant): on a digraph whose adjacency stays inside a finite
+node list, `2·(|V|+1)²+1` loop iterations always suffice, from every cache state. -/
+theorem reach_dfs_terminates {σ : Type} (C : CacheI σ) (g : Digraph) (d : Dir) (fixed : Bool) (cache : σ) (c : Nat) :
+    (reachDFS C (g.adj d) fixed (dfsFuel g.nodes.length) cache c).isSome = true :=
+  reachDFS_terminates C (g.adj d) g.nodes fixed (g.adj_sub_nodes d) (g.adj_length_le d) cache c
+
+/-! ### 5. answers are independent of the query history (ReachabilityCache level) -/
+
+/-- a fresh `ReachabilityCache` over component graph `cg` with both SIEVE caches of capacity `cap` -/
+def freshRC (cg : CompGraph) (cap : Int) (fixed : Bool) : RC :=
+  { cg := cg, inC := Sieve.new cap, outC := Sieve.new cap, fixed := fixed }
+
+/-- the answer of `componentReachDFS(c, d)` asked after the query history `hist` -/
+def answerAfter (cg : CompGraph) (cap : Int) (fixed : Bool) (hist : List (Nat × Dir)) (c : Nat) (d : Dir) :
+    Option Nat :=
+  match (freshRC cg cap fixed).runQueries hist with
+  | some (rc, _) => (rc.componentReach c d).map (·.2)
+  | none => none
+
+/-- FULL STRENGTH: the answer to a query does not depend on which queries were asked before, nor on the cache
+capacity (any `Int`; ≤ 0 clamps to 1), and it always arrives. -/
+def answers_history_independent (fixed : Bool) : Prop :=
+  ∀ (cg : CompGraph) (cap1 cap2 : Int) (h1 h2 : List (Nat × Dir)) (c : Nat) (d : Dir),
+    (answerAfter cg cap1 fixed h1 c d).isSome = true ∧
+    answerAfter cg cap1 fixed h1 c d = answerAfter cg cap2 fixed h2 c d
+
+/-- After ANY history and for ANY capacity the repaired cache answers with exactly the reach set of the
+component graph, and everything stored in both SIEVE caches is exact. -/
+theorem reach_answers_exact_fixed (cg : CompGraph) (cap : Int) (hist : List (Nat × Dir)) (c : Nat) (d : Dir) :
+    ∃ r, answerAfter cg cap true hist c d = some r ∧ ExactBits (cg.dg.adj d) c r := by
+  have h0 : RCInv (freshRC cg cap true) := ⟨sieveExact_new _ cap, sieveExact_new _ cap⟩
+  obtain ⟨rc, rs, hrun, hinv, hcg, hf, _, _⟩ := (freshRC cg cap true).runQueries_fixed rfl h0 hist
+  obtain ⟨rc', r, hq, hex, _, _, _⟩ := rc.componentReach_fixed hf hinv c d
+  refine ⟨r, ?_, ?_⟩
+  · simp [answerAfter, hrun, hq]
+  · rw [hcg] at hex; exact hex
+
+theorem answers_history_independent_fixed : answers_history_independent true := by
+  intro cg cap1 cap2 h1 h2 c d
+  obtain ⟨r1, ha1, he1⟩ := reach_answers_exact_fixed cg cap1 h1 c d
+  obtain ⟨r2, ha2, he2⟩ := reach_answers_exact_fixed cg cap2 h2 c d
+  rw [ha1, ha2, he1.unique he2]
+  exact ⟨rfl, rfl⟩
+
+/-- the diamond as a component graph -/
+def diamondCG : CompGraph :=
+  { comps := [[0], [1], [2], [3]], lookup := [(0, 0), (1, 1), (2, 2), (3, 3)],
+    dg := { nodes := [0, 1, 2, 3], edges := [(3, 1), (3, 2), (2, 1), (1, 0)] } }
+
+/-- **history dependence of the current code**: asked first, `reach(2, out)` is `{0,1,2}` (= 7); asked after
+`reach(3, out)` it is `{1,2}` (= 6). -/
+theorem answers_history_independent_refuted : ¬ answers_history_independent false := by
+  intro h
+  have := (h diamondCG 8 8 [] [(3, .outb)] 2 .outb).2
+  revert this
+  decide
+
+/-- PARTIAL for the code as it is: every `componentReachDFS` call returns (no history can make it loop). -/
+theorem reach_query_terminates_current (rc : RC) (c : Nat) (d : Dir) : (rc.componentReach c d).isSome = true :=
+  rc.componentReach_terminates c d
+
+/-! ### the property at full strength for the live code -/
+
+/-- C15 as stated in properties.jsonl, for the model variant `fixed`: for every well-formed digraph the SCC
+decomposition is correct, and for every capacity and every sequence of public calls every answer is what plain
+BFS on the original graph gives. -/
+def C15_stmt (fixed : Bool) : Prop :=
+  ∀ g : Digraph, g.WF →
+    (∃ comps lk, tarjan g = some (comps, lk) ∧ IsSCC g comps) ∧
+    ∀ (cap : Int) (ops : List Op), ∃ rc answers,
+      RC.new g cap fixed = some rc ∧ rc.runOps ops = some answers ∧ acceptsAll g ops answers = true
+
+/-- the live code is the current DFS -/
+def C15_full : Prop := C15_stmt false
+
+def f5Graph : Digraph := Digraph.ofEdges [0, 1, 2, 3] [(0, 1), (0, 2), (2, 1), (1, 3)]
+
+theorem f5Graph_wf : f5Graph.WF := by
+  refine ⟨by decide, ?_⟩
+  intro u v h
+  have : (u, v) ∈ [(0, 1), (0, 2), (2, 1), (1, 3)] := h
+  simp at this
+  rcases this with ⟨rfl, rfl⟩ | ⟨rfl, rfl⟩ | ⟨rfl, rfl⟩ | ⟨rfl, rfl⟩ <;> decide
+
+/-- **F5 on the whole pipeline** (same case as corpus/C15/c15_f5_four_nodes.ops, reproduced on the real code):
+graph `0→1, 0→2, 2→1, 1→3`, capacity 8, `reach(0,out)` then `reach(2,out)` answers `[1,2]`; BFS says `[1,2,3]`. -/
+theorem c15_full_refuted : ¬ C15_full := by
+  intro h
+  obtain ⟨rc, answers, h1, h2, h3⟩ := (h f5Graph f5Graph_wf).2 8 [.reach 0 .outb, .reach 2 .outb]
+  have e1 : RC.new f5Graph 8 false = some rc → rc.runOps [.reach 0 .outb, .reach 2 .outb] = some answers →
+      acceptsAll f5Graph [.reach 0 .outb, .reach 2 .outb] answers = false := by
+    intro a b
+    have hr : ((RC.new f5Graph 8 false).bind (fun rc => rc.runOps [.reach 0 .outb, .reach 2 .outb])) =
+        some [.set [0, 1, 2, 3], .set [1, 2]] := by decide
+    rw [a] at hr
+    simp only [Option.bind] at hr
+    rw [b] at hr
+    cases hr
+    decide
+  rw [e1 h1 h2] at h3
+  cases h3
+
+/-! ### non-vacuity -/
+
+-- the certificate checker accepts Tarjan's output on a graph with a 3-cycle, a bridge, a 2-cycle, a self loop
+-- and an isolated node; it rejects a merged, a split and a mis-ordered decomposition
+def demoGraph : Digraph :=
+  Digraph.ofEdges [7] [(1, 2), (2, 3), (3, 1), (3, 4), (4, 5), (5, 4), (6, 6)]
+example : (tarjan demoGraph).map (·.1) = some [[7], [5, 4], [3, 2, 1], [6]] := by decide
+example : checkSCC demoGraph [[7], [5, 4], [3, 2, 1], [6]] = true := by decide
+example : checkSCC demoGraph [[7], [5, 4, 3, 2, 1], [6]] = false := by decide
+example : checkSCC demoGraph [[7], [5], [4], [3, 2, 1], [6]] = false := by decide
+example : checkSCC demoGraph [[7], [3, 2, 1], [5, 4], [6]] = false := by decide
+-- hypotheses of `bidir_reachable_correct` / `C15_stmt` are satisfiable
+example : diamondCG.dg.WF := by
+  refine ⟨by decide, ?_⟩
+  intro u v h
+  have : (u, v) ∈ [(3, 1), (3, 2), (2, 1), (1, 0)] := h
+  simp at this
+  rcases this with ⟨rfl, rfl⟩ | ⟨rfl, rfl⟩ | ⟨rfl, rfl⟩ | ⟨rfl, rfl⟩ <;> decide
+example : diamondCG.componentReachable 3 0 .outb = some true ∧ diamondCG.componentReachable 0 3 .outb = some false ∧
+    diamondCG.componentReachable 0 3 .inb = some true ∧ diamondCG.componentReachable 1 2 .both = some true := by decide
+-- the repaired DFS on the F5 witnesses: exact answers, and the cut cursor 2 is NOT cached
+example : answerAfter diamondCG 8 true [(3, .outb)] 2 .outb = some 7 ∧ answerAfter diamondCG 8 true [] 2 .outb = some 7 := by
+  decide
+example : ((RC.new f5Graph 8 true).bind (fun rc => rc.runOps [.reach 0 .outb, .reach 2 .outb])) =
+    some [.set [0, 1, 2, 3], .set [1, 2, 3]] := by decide
+-- the acceptance predicate is not trivially true
+example : accepts f5Graph (.reach 2 .outb) (.set [1, 2]) = false ∧ accepts f5Graph (.reach 2 .outb) (.set [1, 2, 3]) = true ∧
+    accepts f5Graph (.canReach 2 3 .outb) (.bool false) = false := by decide
 
 end Dawgs.C15.Props
